@@ -139,8 +139,8 @@ pub fn corr(seed: u64, n: u64) {
     stats.print("C05", "corr");
 }
 
-fn maxabs<P: Coordinate>(ps: &[P]) -> f64 { flat(ps).iter().fold(0.0f64, |m, v| m.max(v.abs())) }
-fn dist<P: Coordinate>(a: &P, b: &P) -> f64 { comps(a).iter().zip(comps(b).iter()).fold(0.0f64, |m, (x, y)| m.max((x - y).abs())) }
+fn maxabs<P: Coordinate>(ps: &[P]) -> f64 { flat(ps).iter().fold(0.0f64, |m, v| nmax(m, v.abs())) }
+fn dist<P: Coordinate>(a: &P, b: &P) -> f64 { comps(a).iter().zip(comps(b).iter()).fold(0.0f64, |m, (x, y)| nmax(m, (x - y).abs())) }
 
 /// the property itself on the real code: dyadic inputs with zero tolerance, reals to a few ulps of the polygon size
 fn search_dim<P: Coordinate>(rng: &mut Rng, dyadic: bool, stats: &mut Stats) {
